@@ -391,7 +391,7 @@ def memberV (name : Name) : Value → R Value
   | .dict d => match Seq.dGet d (.str name) with | some v => .ok v | none => .error .key
   | .tuple l | .list l | .iter l => do let s ← memberVL name l; toV (.lazy s.1 s.2)
   | .set _ => .error .outOfDomain
-  | _ => .error .unknownFunction                                  -- `#property#name`
+  | .null | .bool _ | .int _ | .flt _ | .str _ | .host _ => .error .unknownFunction       -- `#property#name`
 /-- `map(lambda t: operator(t, name), l)` (= `mapL (memberV name) l none`, see `memberVL_eq`) -/
 def memberVL (name : Name) : List Value → R (VL × Option Err)
   | [] => .ok ([], none)
